@@ -270,6 +270,18 @@ def systematic_traces(lib_by_id, tier):
         if len(m) >= 2:
             chain(m + m[-2::-1])
             chain(m, interleave_new=True)
+    # many unrelated networks in one process: chain k takes the k-th member of EVERY family, in
+    # family order and in reverse, so that every ordered pair of families occurs (aggressor built,
+    # edited and rendered somewhere before the victim) with several choices of members
+    width = max(len(m) for m in fams.values()) if fams else 0
+    width = min(width, 5 if tier == "quick" else 12)
+    for k in range(width):
+        m = [fams[f][(k + j) % len(fams[f])] for j, f in enumerate(sorted(fams))]
+        if len(m) >= 2:
+            chain(m)
+            chain(m[::-1])
+            if k == 0:
+                chain(m, interleave_new=True)
     groups = {}
     for f in sorted(fams):
         groups.setdefault(group(fams[f][0]), []).append(fams[f][-1])
@@ -805,7 +817,7 @@ def main(argv):
     tasks += [("rnd", i, min(i + chunk, nruns)) for i in range(0, nruns, chunk)]
     G = dict(seed=seed, tier=tier, scratch=scratch, lib_by_id=lib_by_id, refs=refs, fam_of=fam_of)
     _G.update(G)
-    budget = {"quick": 200, "thorough": 3300}[tier]
+    budget = {"quick": 420, "thorough": 3300}[tier]
     hseeds = sim_hashseeds(seed)
     payload = {"G": G, "lib": lib, "deadline": timer.t0 + budget}
     jobs = {hs: {"mode": "runs", "tasks": [t for j, t in enumerate(tasks) if j % SIM_ZYGOTES == z]} for z, hs in enumerate(hseeds)}
